@@ -27,11 +27,12 @@ Section RT.
     destruct (parse_child pf ver st n); cbn [bind]; [apply IH|reflexivity|reflexivity].
   Qed.
 
-  Definition upd_g (st : pst) (g : glyph) : pst := mkPst g (st_seen st) (st_adv st) (st_lib st) (st_out st).
+  Definition upd_g (st : pst) (g : glyph) : pst :=
+    mkPst g (st_seen st) (st_adv st) (st_lib st) (st_out st) (st_note st).
   Ltac fin st :=
     destruct st as [g ? ? ? ?]; destruct g;
     unfold set_anchors, set_guides, set_cps, set_adv, set_image, set_note, set_outline, upd_g;
-    cbn [st_g st_seen st_adv st_lib st_out gname gwidth gheight gcps gnote gimage gguides ganchors gcomps
+    cbn [st_g st_seen st_adv st_lib st_out st_note gname gwidth gheight gcps gnote gimage gguides ganchors gcomps
          gcontours glib];
     rewrite ?rev_app_distr, <- ?app_assoc; cbn [app]; reflexivity.
 
@@ -65,7 +66,7 @@ Section RT.
     exists l', Forall2 anchor_rel l l' /\
       parse_children pf 2 st (map (enc_anchor ff ff3) l)
       = Ok (mkPst (set_anchors (st_g st) (ganchors (st_g st) ++ l')) (rev (gaids l) ++ st_seen st)
-                  (st_adv st) (st_lib st) (st_out st)).
+                  (st_adv st) (st_lib st) (st_out st) (st_note st)).
   Proof.
     induction l as [|a l IH]; intros st HR HFin ND HF; cbn [map parse_children].
     - exists []. split; [constructor|]. rewrite app_nil_r. destruct st as [g ? ? ? ?]. destruct g. reflexivity.
@@ -89,7 +90,7 @@ Section RT.
     exists l', Forall2 guide_rel l l' /\
       parse_children pf 2 st (map (enc_guideline ff ff3) l)
       = Ok (mkPst (set_guides (st_g st) (gguides (st_g st) ++ l')) (rev (ggids l) ++ st_seen st)
-                  (st_adv st) (st_lib st) (st_out st)).
+                  (st_adv st) (st_lib st) (st_out st) (st_note st)).
   Proof.
     induction l as [|a l IH]; intros st HR HFin ND HF; cbn [map parse_children].
     - exists []. split; [constructor|]. rewrite app_nil_r. destruct st as [g ? ? ? ?]. destruct g. reflexivity.
@@ -174,7 +175,7 @@ Section RT.
     parse_child pf 2 st (Elem (s2l "outline") [] (map (enc_contour ff) cs ++ map (enc_component ff) ks))
     = Ok (mkPst (set_outline (st_g st) (ganchors (st_g st)) (gcomps (st_g st) ++ map comp_written ks)
                              (gcontours (st_g st) ++ map contour_written cs))
-                (rev (flat_map gcids cs ++ gkids ks) ++ st_seen st) (st_adv st) (st_lib st) true).
+                (rev (flat_map gcids cs ++ gkids ks) ++ st_seen st) (st_adv st) (st_lib st) true (st_note st)).
   Proof.
     intros SO HC FC HK FK ND HF. unfold parse_child. change (ekind_of (s2l "outline")) with (Some KOutline).
     rewrite SO. unfold parse_outline. rewrite (tview_elements _ (enc_kids_elements cs ks)).
@@ -196,7 +197,7 @@ Section RT.
     st_adv st = false -> fl_finite w = true -> fl_finite h = true ->
     parse_child pf 2 st (Empty (s2l "advance")
                            (cond_attr (fl_nonzero h) k_height (ff h) ++ cond_attr (fl_nonzero w) k_width (ff w)))
-    = Ok (mkPst (set_adv (st_g st) (zero_norm w) (zero_norm h)) (st_seen st) true (st_lib st) (st_out st)).
+    = Ok (mkPst (set_adv (st_g st) (zero_norm w) (zero_norm h)) (st_seen st) true (st_lib st) (st_out st) (st_note st)).
   Proof.
     intros SA Fw Fh. unfold parse_child. change (ekind_of (s2l "advance")) with (Some KAdvance). rewrite SA.
     unfold parse_advance, zero_norm.
@@ -232,11 +233,12 @@ Section RT.
   Qed.
 
   Lemma step_note n st :
-    gnote (st_g st) = None -> note_survives (Some n) = true ->
-    parse_child pf 2 st (Elem (s2l "note") [] (text_kids n)) = Ok (upd_g st (set_note (st_g st) (Some n))).
+    st_note st = false -> gnote (st_g st) = None -> note_survives (Some n) = true ->
+    parse_child pf 2 st (Elem (s2l "note") [] (text_kids n))
+    = Ok (mkPst (set_note (st_g st) (Some n)) (st_seen st) (st_adv st) (st_lib st) (st_out st) true).
   Proof.
-    intros GN NS. unfold parse_child. change (ekind_of (s2l "note")) with (Some KNote).
-    change (2 =? 1) with false. cbv iota. rewrite GN.
+    intros SN GN NS. unfold parse_child. change (ekind_of (s2l "note")) with (Some KNote).
+    change (2 =? 1) with false. cbv iota. rewrite SN, GN. cbn [no_attrs negb].
     cbn [note_survives] in NS. apply andb_true_iff in NS as [N1 N2]. apply negb_true_iff in N1.
     apply list_eqb_eq in N2.
     assert (E : note_of None (text_kids n) = Some n) by (apply note_roundtrip_iff; auto).
@@ -268,11 +270,19 @@ Section RT.
   Proof.
     intros (_ & LA & LG & LC & LK). unfold dump_object_libs.
     rewrite (fold_dump_none aid alib _ _ LA), (fold_dump_none guid gulib _ _ LG).
-    assert (E : forall acc, fold_left (fun acc c => fold_left (fun acc p => dump1 (pid p) (plib p) acc) (cpoints c)
-                                                     (dump1 (cid c) (clib c) acc)) (gcontours g) acc = acc).
-    { induction (gcontours g) as [|c cs IH]; intros acc; [reflexivity|]. inversion LC as [|? ? [Hc Hp] LC']; subst.
+    assert (E : forall l, Forall (fun c => clib c = None /\ Forall (fun p => plib p = None) (cpoints c)) l ->
+                forall acc, fold_left (fun acc c => fold_left (fun acc p => dump1 (pid p) (plib p) acc) (cpoints c)
+                                                     (dump1 (cid c) (clib c) acc)) l acc = acc).
+    { induction l as [|c cs IH]; intros HL acc; [reflexivity|]. inversion HL as [|? ? [Hc Hp] LC']; subst.
       cbn [fold_left]. rewrite Hc. cbn [dump1]. rewrite (fold_dump_none pid plib _ _ Hp). apply IH; exact LC'. }
-    rewrite E. apply (fold_dump_none coid colib _ _ LK).
+    rewrite E; [apply (fold_dump_none coid colib _ _ LK)|].
+    apply Forall_forall. intros c Hc. apply filter_In in Hc as [Hc _]. rewrite Forall_forall in LC. apply LC; exact Hc.
+  Qed.
+
+  Lemma filter_has_points cs : Forall contour_rules cs -> filter has_points cs = cs.
+  Proof.
+    induction 1 as [|c cs (NE & _) F IH]; [reflexivity|]. cbn [filter]. unfold has_points at 1.
+    destruct (cpoints c); [contradiction|]. rewrite IH. reflexivity.
   Qed.
 
   Lemma map_elements {A} (f : A -> node) l :
@@ -345,7 +355,7 @@ Section RT.
       - apply map_elements. reflexivity.
       - destruct (fl_nonzero (gwidth g) || fl_nonzero (gheight g)); reflexivity.
       - destruct (gimage g); reflexivity.
-      - unfold enc_outline. destruct (gcontours g), (gcomps g); reflexivity.
+      - unfold enc_outline. rewrite (filter_has_points _ RCo). destruct (gcontours g), (gcomps g); reflexivity.
       - apply map_elements. reflexivity.
       - apply map_elements. reflexivity.
       - reflexivity.
@@ -353,19 +363,19 @@ Section RT.
     rewrite TV. subst kids.
     (* code points *)
     rewrite parse_children_app, step_unicodes by exact RC2.
-    cbn [bind glyph_new upd_g set_cps st_g st_seen st_adv st_lib st_out gcps].
+    cbn [bind glyph_new upd_g set_cps st_g st_seen st_adv st_lib st_out st_note gcps].
     rewrite (codepoints_order_preserved _ RC1 []) by (intros ? _ []). cbn [app].
     (* advance *)
     rewrite parse_children_app.
     match goal with |- context [parse_children pf 2 ?st (if ?b then [?x] else [])] =>
       assert (EA : parse_children pf 2 st (if b then [x] else [])
                    = Ok (mkPst (set_adv (st_g st) (zero_norm (gwidth g)) (zero_norm (gheight g)))
-                               (st_seen st) b (st_lib st) (st_out st)))
+                               (st_seen st) b (st_lib st) (st_out st) (st_note st)))
     end.
     { destruct (fl_nonzero (gwidth g) || fl_nonzero (gheight g)) eqn:EB; cbn [parse_children].
       - rewrite step_advance by (try reflexivity; assumption). reflexivity.
       - apply orb_false_iff in EB as [E1 E2]. unfold zero_norm. rewrite E1, E2. reflexivity. }
-    rewrite EA. clear EA. cbn [bind st_g st_seen st_adv st_lib st_out set_adv].
+    rewrite EA. clear EA. cbn [bind st_g st_seen st_adv st_lib st_out st_note set_adv].
     (* image *)
     rewrite parse_children_app.
     match goal with |- context [parse_children pf 2 ?st (match gimage g with Some i => [?f i] | None => [] end)] =>
@@ -377,31 +387,31 @@ Section RT.
     { destruct (gimage g) as [i|]; cbn [parse_children].
       - destruct (step_image i stI eq_refl RI Fi) as (i' & REL & ->). exists (Some i'). split; [exact REL|reflexivity].
       - exists None. split; [exact I|]. subst stI. reflexivity. }
-    destruct EI as (oi & RELI & ->). subst stI. cbn [bind upd_g st_g st_seen st_adv st_lib st_out set_image].
+    destruct EI as (oi & RELI & ->). subst stI. cbn [bind upd_g st_g st_seen st_adv st_lib st_out st_note set_image].
     (* outline *)
     rewrite parse_children_app.
     match goal with |- context [parse_children pf 2 ?st (enc_outline ff (gcontours g) (gcomps g))] =>
       assert (EO : exists b, parse_children pf 2 st (enc_outline ff (gcontours g) (gcomps g))
                    = Ok (mkPst (set_outline (st_g st) (ganchors (st_g st)) (map comp_written (gcomps g))
                                             (map contour_written (gcontours g)))
-                               (rev (C ++ K) ++ st_seen st) (st_adv st) (st_lib st) b))
+                               (rev (C ++ K) ++ st_seen st) (st_adv st) (st_lib st) b (st_note st)))
     end.
     { assert (S1 : enc_outline ff (gcontours g) (gcomps g)
                    = if match gcontours g, gcomps g with [], [] => true | _, _ => false end then []
                      else [Elem (s2l "outline") [] (map (enc_contour ff) (gcontours g) ++ map (enc_component ff) (gcomps g))]).
-      { unfold enc_outline. destruct (gcontours g), (gcomps g); reflexivity. }
+      { unfold enc_outline. rewrite (filter_has_points _ RCo). destruct (gcontours g), (gcomps g); reflexivity. }
       rewrite S1. destruct (match gcontours g, gcomps g with [], [] => true | _, _ => false end) eqn:EE.
       - destruct (gcontours g) eqn:E1, (gcomps g) eqn:E2; try discriminate. exists false. subst C K.
         reflexivity.
       - exists true. cbn [parse_children]. rewrite step_outline; auto; try reflexivity; try (intros ? _ []). }
-    destruct EO as (bo & ->). cbn [bind st_g st_seen st_adv st_lib st_out set_outline ganchors gguides app].
+    destruct EO as (bo & ->). cbn [bind st_g st_seen st_adv st_lib st_out st_note set_outline ganchors gguides app].
     rewrite app_nil_r.
     (* anchors *)
     rewrite parse_children_app.
     match goal with |- context [parse_children pf 2 ?st (map (enc_anchor ff ff3) _)] =>
       destruct (step_anchors (ganchors g) st RA Fa NA) as (an' & RELA & ->) end.
     { cbn [st_seen]. intros i Hi Hin. apply in_rev in Hin. exact (DA i Hi Hin). }
-    cbn [bind st_g st_seen st_adv st_lib st_out set_anchors ganchors gguides app].
+    cbn [bind st_g st_seen st_adv st_lib st_out st_note set_anchors ganchors gguides app].
     (* guidelines *)
     rewrite parse_children_app.
     match goal with |- context [parse_children pf 2 ?st (map (enc_guideline ff ff3) _)] =>
@@ -409,12 +419,13 @@ Section RT.
     { cbn [st_seen]. intros i Hi Hin. destruct (DG i Hi) as [D1 D2]. apply in_app_iff in Hin as [Hin|Hin].
       - apply in_rev in Hin. exact (D1 Hin).
       - apply in_rev in Hin. exact (D2 Hin). }
-    cbn [bind st_g st_seen st_adv st_lib st_out set_guides ganchors gguides app parse_children].
+    cbn [bind st_g st_seen st_adv st_lib st_out st_note set_guides ganchors gguides app parse_children].
     (* note *)
     match goal with |- context [parse_children pf 2 ?st (match gnote g with Some _ => _ | None => [] end)] =>
       assert (EN : parse_children pf 2 st
                      (match gnote g with Some n => [Elem (s2l "note") [] (text_kids n)] | None => [] end)
-                   = Ok (upd_g st (set_note (st_g st) (gnote g))))
+                   = Ok (mkPst (set_note (st_g st) (gnote g)) (st_seen st) (st_adv st) (st_lib st) (st_out st)
+                               (match gnote g with Some _ => true | None => false end)))
     end.
     { destruct (gnote g) as [n|] eqn:EN; cbn [parse_children].
       - rewrite step_note by (try reflexivity; exact NS). reflexivity.
